@@ -198,7 +198,7 @@ class dtype:
                 n *= d
             return n * self._base.itemsize
         if self.fields_list is not None:
-            return sum(f[1].itemsize for f in self.fields_list)
+            return _b.sum(f[1].itemsize for f in self.fields_list)
         return _SCALAR_SIZES[self.code]
 
     @property
@@ -209,7 +209,7 @@ class dtype:
                 n *= d
             return n
         if self.fields_list is not None:
-            return sum(f[1].nleaves for f in self.fields_list)
+            return _b.sum(f[1].nleaves for f in self.fields_list)
         return 1
 
     @property
@@ -407,6 +407,8 @@ def to_leaf(v: Any, code: str, from_python: bool = True):
             if E.branch(inr):
                 return v
             return E.mkint(((v.e - lo) % (1 << k)) + lo)
+        if isinstance(v, SBool):
+            return 1 if bool(v) else 0  # bool -> integer cast: the symbolic bit is decided (forks)
         if v is None:
             raise TypeError("int() argument must be a string, a bytes-like object or a real number, not 'NoneType'")
         if isinstance(v, str):
@@ -699,9 +701,9 @@ class ndarray:
         # expand Ellipsis / pad with full slices
         if _b.any(k is Ellipsis for k in key):
             i = next(i for i, k in enumerate(key) if k is Ellipsis)
-            nfill = self.ndim - (len(key) - 1 - sum(1 for k in key if k is None))
+            nfill = self.ndim - (len(key) - 1 - _b.sum(1 for k in key if k is None))
             key = key[:i] + (slice(None),) * nfill + key[i + 1:]
-        nreal = sum(1 for k in key if k is not None)
+        nreal = _b.sum(1 for k in key if k is not None)
         if nreal > self.ndim:
             raise IndexError(
                 f"too many indices for array: array is {self.ndim}-dimensional, but {nreal} were indexed"
@@ -768,7 +770,7 @@ class ndarray:
             s *= d
         strides.reverse()
         new_idx = [
-            self._idx[sum(i * st for i, st in zip(combo, strides))]
+            self._idx[_b.sum(i * st for i, st in zip(combo, strides))]
             for combo in itertools.product(*per_dim)
         ] if per_dim else list(self._idx)
         scalar = _b.all(not isinstance(k, slice) and k is not None for k in key) and len(key) >= self.ndim
@@ -935,7 +937,7 @@ class ndarray:
         strides.reverse()
         rstr = list(reversed(strides))
         idx = [
-            self._idx[sum(i * st for i, st in zip(combo, rstr))]
+            self._idx[_b.sum(i * st for i, st in zip(combo, rstr))]
             for combo in itertools.product(*[range(d) for d in new_shape])
         ]
         return ndarray._mk(new_shape, self.dtype, self._buf, idx, self._writeable)
@@ -1055,6 +1057,15 @@ class ndarray:
         if axis is not None:
             raise UnsupportedInShim("any(axis=)")
         return _truthy_any([self._buf[p] for p in self._idx], self.dtype.code)
+
+    def sum(self, axis=None, dtype=None):
+        return sum(self, axis=axis, dtype=dtype)
+
+    def nonzero(self):
+        return nonzero(self)
+
+    def cumsum(self, axis=None, dtype=None):
+        return cumsum(self, axis=axis, dtype=dtype)
 
     def __bool__(self) -> bool:
         if self.size == 1:
@@ -1254,7 +1265,7 @@ def _broadcast_idx(src: ndarray, shape: tuple) -> list:
     strides.reverse()
     out = []
     for combo in itertools.product(*[range(d) for d in shape]):
-        off = sum((0 if ps[k] == 1 else i) * strides[k] for k, i in enumerate(combo))
+        off = _b.sum((0 if ps[k] == 1 else i) * strides[k] for k, i in enumerate(combo))
         out.append(src._idx[off])
     return out
 
@@ -1571,7 +1582,7 @@ def concatenate(arrays, axis=0, dtype=None):
     if dtype is not None:
         code = globals()["dtype"](dtype).code
     shape = list(arrs[0].shape)
-    shape[axis] = sum(a.shape[axis] for a in arrs)
+    shape[axis] = _b.sum(a.shape[axis] for a in arrs)
     outer = _prod(shape[:axis])
     buf = []
     for o in range(outer):
@@ -1964,6 +1975,200 @@ def errstate(**kw):
 
     return contextlib.nullcontext()
 
+
+
+# -- mask / index helpers (vectorised gap computations use these) ------------------------
+
+
+def _truth_list(a) -> list:
+    """Concrete truth value of every element (each symbolic element is decided: forks)."""
+    a = asarray(a)
+    if a._structured:
+        raise UnsupportedInShim("truth of structured elements")
+    return [bool(_truthy_all([a._buf[p]], a.dtype.code)) for p in a._idx]
+
+
+def _int_array(vals, code="i8") -> ndarray:
+    return ndarray._mk((len(vals),), _scalar_dt(code), list(vals), list(range(len(vals))))
+
+
+def flatnonzero(a):
+    t = _truth_list(asarray(a).ravel())
+    return _int_array([i for i, v in enumerate(t) if v])
+
+
+def nonzero(a):
+    a = asarray(a)
+    if a.ndim == 0:
+        raise UnsupportedInShim("nonzero of a 0-d array")
+    t = _truth_list(a)
+    coords = [[] for _ in a.shape]
+    for flat, v in enumerate(t):
+        if not v:
+            continue
+        rem = flat
+        idx = []
+        for d in reversed(a.shape):
+            idx.append(rem % d)
+            rem //= d
+        for k, i in enumerate(reversed(idx)):
+            coords[k].append(i)
+    return tuple(_int_array(c) for c in coords)
+
+
+def argwhere(a):
+    nz = nonzero(a)
+    n = len(nz[0]._idx)
+    vals = [nz[k]._buf[nz[k]._idx[i]] for i in range(n) for k in range(len(nz))]
+    return ndarray._mk((n, len(nz)), _scalar_dt("i8"), vals, list(range(len(vals))))
+
+
+def where(condition, x=None, y=None):
+    if x is None and y is None:
+        return nonzero(condition)
+    if x is None or y is None:
+        raise ValueError("either both or neither of x and y should be given")
+    c = asarray(condition)
+    xa, ya = asarray(x), asarray(y)
+    code = _common_code(xa.dtype.code, ya.dtype.code) if xa.dtype.code != ya.dtype.code else xa.dtype.code
+    shp = _broadcast_shapes(_broadcast_shapes(c.shape, xa.shape), ya.shape)
+    ci, xi, yi = _broadcast_idx(c, shp), _broadcast_idx(xa, shp), _broadcast_idx(ya, shp)
+    out = []
+    for pc, px, py in zip(ci, xi, yi):
+        t = bool(_truthy_all([c._buf[pc]], c.dtype.code))  # symbolic conditions fork
+        src, sp = (xa, px) if t else (ya, py)
+        out.append(to_leaf(leaf_in(_leaf_as_value(src._buf[sp], src.dtype.code), code), code, from_python=False))
+    return ndarray._mk(shp, _scalar_dt(code), out, list(range(len(out))))
+
+
+def _bool_binop(a, b, f):
+    a, b = asarray(a), asarray(b)
+    shp = _broadcast_shapes(a.shape, b.shape)
+    ai, bi = _broadcast_idx(a, shp), _broadcast_idx(b, shp)
+    vals = []
+    for pa, pb in zip(ai, bi):
+        ta = _truthy_all([a._buf[pa]], a.dtype.code)
+        tb = _truthy_all([b._buf[pb]], b.dtype.code)
+        vals.append(f(ta, tb))
+    return ndarray._mk(shp, _scalar_dt("b1"), vals, list(range(len(vals))))
+
+
+def logical_and(a, b):
+    return _bool_binop(a, b, lambda p, q: E.s_and(p, q))
+
+
+def logical_or(a, b):
+    return _bool_binop(a, b, lambda p, q: E.s_or(p, q))
+
+
+def logical_xor(a, b):
+    return _bool_binop(a, b, lambda p, q: E.s_or(E.s_and(p, E.s_not(q)), E.s_and(E.s_not(p), q)))
+
+
+def logical_not(a):
+    a = asarray(a)
+    vals = [E.s_not(_truthy_all([a._buf[p]], a.dtype.code)) for p in a._idx]
+    return ndarray._mk(a.shape, _scalar_dt("b1"), vals, list(range(len(vals))))
+
+
+def _as_int_value(x, code):
+    """Leaf of an integer / bool array as a Python-int proxy."""
+    if code == "b1":
+        return 1 if bool(x) else 0  # a symbolic bool forks
+    if code[0] in "iu":
+        return x
+    raise UnsupportedInShim("integer reduction over a float array (float arithmetic is not modelled)")
+
+
+def sum(a, axis=None, dtype=None):  # noqa: A001
+    a = asarray(a)
+    if axis is not None or dtype is not None:
+        raise UnsupportedInShim("sum(axis=/dtype=)")
+    tot = 0
+    for p in a._idx:
+        tot = tot + _as_int_value(a._buf[p], a.dtype.code)
+    return tot
+
+
+def cumsum(a, axis=None, dtype=None):
+    a = asarray(a)
+    if a.ndim != 1 or axis not in (None, 0) or dtype is not None:
+        raise UnsupportedInShim("cumsum of rank != 1")
+    tot, out = 0, []
+    for p in a._idx:
+        tot = tot + _as_int_value(a._buf[p], a.dtype.code)
+        out.append(tot)
+    return _int_array(out)
+
+
+def diff(a, n=1, axis=-1, prepend=None, append=None):
+    a = asarray(a)
+    if a.ndim != 1 or n != 1 or axis not in (-1, 0):
+        raise UnsupportedInShim("diff of rank != 1 / order != 1")
+    parts = []
+    if prepend is not None:
+        parts.append(asarray(prepend).ravel())
+    parts.append(a)
+    if append is not None:
+        parts.append(asarray(append).ravel())
+    if len(parts) > 1:
+        a = concatenate([q.astype(a.dtype) for q in parts])
+    code = a.dtype.code
+    if code == "b1":
+        leaves = [a._buf[p] for p in a._idx]
+        vals = [E.s_or(E.s_and(leaves[i + 1], E.s_not(leaves[i])), E.s_and(E.s_not(leaves[i + 1]), leaves[i])) for i in range(len(leaves) - 1)]
+        return ndarray._mk((len(vals),), _scalar_dt("b1"), vals, list(range(len(vals))))
+    if code[0] not in "iu":
+        raise UnsupportedInShim("diff of a float array (float arithmetic is not modelled)")
+    leaves = [a._buf[p] for p in a._idx]
+    vals = [to_leaf(leaves[i + 1] - leaves[i], code) for i in range(len(leaves) - 1)]
+    return ndarray._mk((len(vals),), a.dtype, vals, list(range(len(vals))))
+
+
+def append(arr, values, axis=None):
+    if axis is not None:
+        raise UnsupportedInShim("append(axis=)")
+    a, v = asarray(arr).ravel(), asarray(values).ravel()
+    if a.size == 0:
+        return v.copy() if v.dtype == a.dtype else v.astype(_scalar_dt(_common_code(a.dtype.code, v.dtype.code)))
+    return concatenate([a, v])
+
+
+def delete(arr, obj, axis=None):
+    a = asarray(arr)
+    if a.ndim != 1 or axis not in (None, 0):
+        raise UnsupportedInShim("delete on rank != 1")
+    n = a.shape[0]
+    objs = [obj] if not isinstance(obj, (list, tuple, ndarray)) else list(obj)
+    drop = set()
+    for o in objs:
+        i = _as_index(o)
+        if i < -n or i >= n:
+            raise IndexError(f"index {i} is out of bounds for axis 0 with size {n}")
+        drop.add(i + n if i < 0 else i)
+    return a[[i for i in range(n) if i not in drop]] if drop else a.copy()
+
+
+def split(ary, indices_or_sections, axis=0):
+    a = asarray(ary)
+    if axis != 0:
+        raise UnsupportedInShim("split(axis != 0)")
+    n = a.shape[0]
+    if isinstance(indices_or_sections, int):
+        k = indices_or_sections
+        if k <= 0 or n % k:
+            raise ValueError("array split does not result in an equal division")
+        cuts = [n // k * i for i in range(1, k)]
+    else:
+        cuts = [_as_index(x) for x in (indices_or_sections.tolist() if isinstance(indices_or_sections, ndarray) else indices_or_sections)]
+    out, prev = [], 0
+    for c in cuts + [n]:
+        out.append(a[prev:c] if c >= prev else a[prev:prev])
+        prev = _b.max(prev, c) if c >= 0 else prev
+    return out
+
+
+array_split = split
 
 def __getattr__(name):
     if name.startswith("__"):
